@@ -439,7 +439,7 @@ def slotWriteViolations (tbl : List CellWrite) : List CellWrite :=
   tbl.filter (fun w => w.origin == "slot" && !w.guarded && !(knownSlotWrites.contains (w.file, w.fn, w.field)))
 
 /-- what the decidable check means, for any table -/
-theorem scalarWrites_sound (tbl : List ScalarWrite) (h : scalarWriteViolations tbl = []) :
+theorem C06_scalar_site_check_sound (tbl : List ScalarWrite) (h : scalarWriteViolations tbl = []) :
     ∀ w ∈ tbl, (w.file, w.fn, w.typ, w.kind) ∈ knownScalarWrites := by
   intro w hw
   have : w ∉ scalarWriteViolations tbl := by rw [h]; simp
@@ -447,7 +447,7 @@ theorem scalarWrites_sound (tbl : List ScalarWrite) (h : scalarWriteViolations t
     Bool.not_false] at this
   simpa [List.contains_iff_mem] using this
 
-theorem slotWrites_sound (tbl : List CellWrite) (h : slotWriteViolations tbl = []) :
+theorem C06_slot_site_check_sound (tbl : List CellWrite) (h : slotWriteViolations tbl = []) :
     ∀ w ∈ tbl, w.origin = "slot" → w.guarded = true ∨ (w.file, w.fn, w.field) ∈ knownSlotWrites := by
   intro w hw ho
   have : w ∉ slotWriteViolations tbl := by rw [h]; simp
@@ -465,14 +465,14 @@ examined sites — regenerated from the source on every run. (`x.Value += …` o
 theorem C06_scalar_objects_immutable :
     (∀ w ∈ Generated.C06ScalarWrites.scalarWrites, (w.file, w.fn, w.typ, w.kind) ∈ knownScalarWrites) ∧
     Generated.C06ScalarWrites.shapeChanged = [] :=
-  ⟨scalarWrites_sound _ (by decide), by decide⟩
+  ⟨C06_scalar_site_check_sound _ (by decide), by decide⟩
 
 /-- **No cell of an array's slot list is written in place** unless the slot is reference-bound,
 owned, or the array is still private to the function that builds it. -/
 theorem C06_shared_cells_replaced :
     ∀ w ∈ Generated.C06ScalarWrites.cellWrites, w.origin = "slot" →
       w.guarded = true ∨ (w.file, w.fn, w.field) ∈ knownSlotWrites :=
-  slotWrites_sound _ (by decide)
+  C06_slot_site_check_sound _ (by decide)
 
 /-! ### Non-vacuity -/
 /- the translator looked at the code: packages and functions were examined, the guarded stores of
